@@ -113,6 +113,9 @@ def main(argv=None):
 def run(pid, tier, seed, replay, t0):
     import importlib
 
+    import warnings
+
+    warnings.filterwarnings("ignore")
     C.import_haptools()
     mod = importlib.import_module(f"harness.{pid.lower()}")
     chk: Check = mod.CHECK
